@@ -56,7 +56,8 @@ REQUIRED_COUNTERS = ['datasets_analysed', 'orderings_compared',
                      'datasets_with_chunked_records',
                      'directories_with_two_families',
                      'fitted_points_compared_with_planted_counts',
-                     'analyses_of_a_rewritten_path']
+                     'analyses_of_a_rewritten_path',
+                     'analyses_with_other_tables_read_first']
 SHARD_TIMEOUT = {'quick': 900, 'thorough': 3600}
 
 BOX = {'p_th': (0.03, 0.3), 'nu': (0.7, 1.6), 'A': (0.15, 0.7),
@@ -242,7 +243,7 @@ def write_dataset(rng, ds, root, mode, ooc=0.0, second=None, chunks=False):
     return orderings
 
 
-def analyse(path, as_list=False, expect=1):
+def analyse(path, as_list=False, expect=1, read_first=None):
     from panqec.analysis import Analysis
     arg = path
     if as_list:
@@ -254,6 +255,11 @@ def analyse(path, as_list=False, expect=1):
         warnings.simplefilter('ignore')
         with contextlib.redirect_stdout(io.StringIO()):
             an = Analysis(arg, verbose=False)
+            if read_first == 'trunc_results':
+                # what the plotting helpers and save() read first
+                an.trunc_results
+            elif read_first == 'sector_thresholds':
+                an.sector_thresholds
             th = an.thresholds
     if len(th) != expect:
         return None, (f'{len(th)} threshold rows for {expect} (code, noise, '
@@ -482,8 +488,12 @@ def run_block(task, out):
             rows = []
             for oi, o in enumerate(ords):
                 try:
-                    row, err = analyse(o, as_list=(oi == 1),
-                                       expect=len(fams))
+                    row, err = analyse(
+                        o, as_list=(oi == 1), expect=len(fams),
+                        read_first=[None, 'sector_thresholds',
+                                    'trunc_results'][oi])
+                    if oi:
+                        out.count('analyses_with_other_tables_read_first')
                     if oi == 1:
                         out.count('analyses_given_a_list_of_files')
                 except Exception as e:
